@@ -148,17 +148,25 @@ def _history():
 
 
 def _extremes():
-    big = (1 << 63) - 1
+    big = (1 << 63) - 2
     return [
         N(-1, -1800000000, -900000000, version=1, timestamp=2, changeset=1, uid=1, user="a"),
         N(0, 1800000000, 900000000, version=(1 << 31) - 1, timestamp=(1 << 32) - 2, changeset=(1 << 32) - 2, uid=(1 << 31) - 1, user="b"),
-        N(1 << 32, -2147483648, 2147483646, version=2, timestamp=(1 << 31), changeset=(1 << 31), uid=1 << 16, user="c"),
-        N(big, 2147483646, -2147483648, version=3, timestamp=1 << 31, changeset=5, uid=3, user="d"),
+        N(1 << 32, -1799999999, 899999999, version=2, timestamp=(1 << 31), changeset=(1 << 31), uid=1 << 16, user="c"),
+        N(big, 1, -1, version=3, timestamp=1 << 31, changeset=5, uid=3, user="d"),
         W(-(1 << 32), [big, -big, 0, 1 << 32], version=1, timestamp=4, changeset=1, uid=1, user="a"),
         W(big, [-1, 1], version=1, timestamp=6, changeset=1, uid=1, user="a"),
         R(-big, [("n", big, "x"), ("w", -big, "y"), ("r", 0, "z"), ("n", -1, "x")], version=1, timestamp=8, changeset=1, uid=1, user="a"),
         R(big, [("r", big, "")], version=1, timestamp=10, changeset=1, uid=1, user="a"),
     ]
+
+
+def _id_max():
+    """INT64_MAX as id / reference (the XML attribute parser rejects exactly this value -> tri-state there)"""
+    big = (1 << 63) - 1
+    return [N(big, 70, 70, version=1, timestamp=2, changeset=1, uid=1, user="a"),
+            W(big, [big, -big], version=1, timestamp=2, changeset=1, uid=1, user="a"),
+            R(big, [("n", big, "x"), ("w", -big, "y")], version=1, timestamp=2, changeset=1, uid=1, user="a")]
 
 
 def _strings(fmt):
@@ -216,15 +224,36 @@ def _single_full():
     return [N(17, 123456789, -87654321, version=3, timestamp=T0 + 12, changeset=99, uid=5, user="bob", tags=[("amenity", "pub")])]
 
 
+def _anon():
+    """anonymous edits (uid 0, no user name) next to named ones, and objects with a version but no timestamp"""
+    return [
+        N(1, 700, 700, version=1, timestamp=T0, changeset=5, uid=0, user=""),
+        N(2, 1400, 700, version=2, timestamp=T0 + 2, changeset=6, uid=9, user="named", tags=[("a", "b")]),
+        N(3, 2100, 700, version=3, timestamp=T0 + 4, changeset=7, uid=0, user=""),
+        N(4, 2800, 700, version=5),
+        N(5, 3500, 700, version=1, timestamp=T0 + 6, changeset=8, uid=9, user="named"),
+        W(1, [1, 2, 3], version=1, timestamp=T0 + 8, changeset=9, uid=0, user="", tags=[("a", "b")]),
+        W(2, [3, 4], version=7),
+        R(1, [("n", 1, ""), ("w", 1, "")], version=1, timestamp=T0 + 10, changeset=10, uid=0, user=""),
+        R(2, [("r", 1, "x")], version=2, timestamp=T0 + 12, changeset=10, uid=9, user="named"),
+    ]
+
+
+def _single_nouser():
+    return [N(17, 123456789, -87654321, version=3, timestamp=T0 + 12, changeset=99, uid=5, user="", tags=[("amenity", "pub")])]
+
+
 def _cs_max():
     """changeset id 2^32-1: rejected by string_to_changeset_id as pinned by the repo's tests -> tri-state"""
     return [N(1, 1, 1, version=1, timestamp=T0, changeset=(1 << 32) - 1, uid=1, user="u")]
 
 
 def _outofrange():
-    """locations outside +-180/+-90: OPL (documented: only valid() locations are kept) -> tri-state there"""
+    """locations outside +-180/+-90 up to the int32 extremes: OPL (documented: only valid() locations are kept) -> tri-state there"""
     return [N(1, 2000000000, 5, version=1, timestamp=T0, changeset=1, uid=1, user="u"),
-            N(2, 5, -950000000, version=1, timestamp=T0, changeset=1, uid=1, user="u")]
+            N(2, 5, -950000000, version=1, timestamp=T0, changeset=1, uid=1, user="u"),
+            N(3, -2147483648, 2147483646, version=1, timestamp=T0, changeset=1, uid=1, user="u"),
+            N(4, 2147483646, -2147483648, version=1, timestamp=T0, changeset=1, uid=1, user="u")]
 
 
 def _waylocs():
@@ -270,10 +299,13 @@ DATASETS = {
     "empty": lambda: [],
     "single": _single,
     "single_full": _snap(_single_full),
+    "single_nouser": _snap(_single_nouser),
     "basic": _snap(_basic),
     "nometa": _snap(_nometa),
+    "anon": _snap(_anon),
     "history": _snap(_history),
     "extremes": _extremes,
+    "id_max": _id_max,
     "strings": _snap(lambda: _strings("")),
     "long": _snap(_long),
     "mixed": _snap(_mixed_order),
@@ -285,7 +317,7 @@ DATASETS = {
     "discussion": _changesets_discussion,
 }
 HISTORY = {"history"}                      # data sets with several versions / deleted objects
-COMMON = ["empty", "single", "single_full", "basic", "nometa", "mixed", "many"]   # carried identically by all four formats
+COMMON = ["empty", "single", "single_full", "basic", "nometa", "anon", "mixed", "many"]   # carried identically by all four formats
 _cache = {}
 
 
